@@ -61,6 +61,8 @@ def build(spec) -> Built:
         a.update(attrs.get(str(i), {}))
         if cname == "EqVertex":
             a.setdefault("key", "twin")
+        if cname == "VNamed":
+            a.setdefault("name", f"n{i}")
         kw = {"attributes": a}
         if str(i) in uids:
             kw["uid"] = uids[str(i)]  # uids are user-assignable and nothing makes them unique
